@@ -10,6 +10,9 @@ from .base import Fail, forall, client_method_name
 from . import values
 from .rig import Rig, python_class, to_python, to_bytes
 from .servers import GrpcError
+from .c06 import set_string
+from .c04 import var_value
+from ..refmodels import transcoding as T
 
 GETOP = "/google.longrunning.Operations/GetOperation"
 CODES = {3: "InvalidArgument", 5: "NotFound", 7: "PermissionDenied", 9: "FailedPrecondition", 13: "InternalServerError", 14: "ServiceUnavailable", 8: "ResourceExhausted"}
@@ -30,11 +33,33 @@ def install_fake_clock():
     asyncio.sleep = fast
 
 
+# operation names that the GetOperation HTTP rule in force can transcode
+REST_NAMES = {"/v1/{name=operations/*}": ["operations/op-1", "operations/abc.def"],
+              "/v1beta/{name=projects/*/operations/*}": ["projects/p/operations/abc", "projects/p-2/operations/o_1"],
+              "/v2/{name=projects/*/locations/*/operations/*}": ["projects/p/locations/l/operations/abc"]}
+REST_DEFAULT_NAMES = ["projects/p/operations/abc", "x/y/z/operations/op-1"]      # api-core's default rule {name=**/operations/*}
+
+
+def strip_unqueryable(msg):
+    """repeated messages and maps cannot travel as query parameters (api-core refuses them): C04 judges that"""
+    for fd, v in list(msg.ListFields()):
+        if fd.message_type is None:
+            continue
+        if fd.label == fd.LABEL_REPEATED:
+            msg.ClearField(fd.name)
+        elif not fd.message_type.full_name.startswith("google.protobuf."):
+            strip_unqueryable(v)
+
+
 def exercise(ctx):
     from .c01 import import_all
     import_all(ctx)
     install_fake_clock()
     rig = Rig(ctx)
+    from google.protobuf import json_format
+
+    def rest_ok(m):
+        return "rest" in ctx.options.get("transport", "") and bool(m.get("http"))
     classes = values.classes_of(ctx.pool)
     n = int(ctx.inner.get("n", 8))
     for f, svc in ctx.services():
@@ -63,8 +88,24 @@ def exercise(ctx):
                 code = draw(st.sampled_from(sorted(CODES)))
                 payload = draw(values.message(rdesc, classes, max_depth=2)) if rdesc is not None else None
                 meta = draw(values.message(mdesc, classes, max_depth=2)) if mdesc is not None else None
-                req = draw(values.message(in_desc, classes, max_depth=1))
-                return k, outcome, code, payload, meta, req, draw(st.sampled_from(["sync", "async"])), draw(st.sampled_from(["operations/op-1", "projects/p/operations/abc", "op 2"]))
+                kinds = ["sync", "async"] + (["rest", "rest"] if rest_ok(m) else [])
+                kind = draw(st.sampled_from(kinds))
+                req = draw(values.message(in_desc, classes, max_depth=1, json_safe=kind == "rest"))
+                if kind == "rest":
+                    rules = ctx.inner.get("lro_get_rules") or []
+                    opname = draw(st.sampled_from(sorted({n for r in rules for n in REST_NAMES[r]}) or REST_DEFAULT_NAMES))
+                    # the request has to match the method's primary binding (judged by C04; here it only carries the call)
+                    strip_unqueryable(req)
+                    for seg in T.parse_uri(m["http"]["uri"])[0]:
+                        if seg[0] == "var":
+                            set_string(req, seg[1], draw(var_value(seg[2])))
+                    for ab in m["http"].get("additional", []):
+                        for v in T.variables(ab["uri"]):
+                            if v not in T.variables(m["http"]["uri"]):
+                                set_string(req, v, "")
+                else:
+                    opname = draw(st.sampled_from(["operations/op-1", "projects/p/operations/abc", "op 2"]))
+                return k, outcome, code, payload, meta, req, kind, opname
 
             def one(sc, f=f, svc=svc, m=m, path_=path_, annotated=annotated, rdesc=rdesc, mdesc=mdesc, case_r=case_r, case_m=case_m):
                 k, outcome, code, payload, meta, req, kind, opname = sc
@@ -97,8 +138,30 @@ def exercise(ctx):
                                 op.error.CopyFrom(status_pb2.Status(code=code, message="scripted failure"))
                         return op.SerializeToString()
                     raise GrpcError(grpc.StatusCode.UNIMPLEMENTED, "unexpected " + rec["method"])
+                def respond_http(rec):
+                    rules = ctx.inner.get("lro_get_rules") or []
+                    # the first binding (primary first) that the issued name fits is the one that has to be used
+                    fit = next((r for r in rules if opname in REST_NAMES[r]), None)
+                    is_poll = rec["verb"] == "GET" and rec["path"].endswith("/" + opname) and (
+                        rec["path"] == fit.split("{")[0] + opname if fit else True)
+                    rec["is_poll"] = is_poll
+                    op = operations_pb2.Operation(name=opname, done=False)
+                    if meta is not None:
+                        op.metadata.CopyFrom(pack(meta))
+                    if is_poll:
+                        state["polls"] += 1
+                        if state["polls"] > k:
+                            op.done = True
+                            if outcome == "response":
+                                op.response.CopyFrom(pack(payload))
+                            else:
+                                op.error.CopyFrom(status_pb2.Status(code=code, message="scripted failure"))
+                    return 200, json_format.MessageToJson(op, descriptor_pool=ctx.pool), {}
                 rig.grpc.respond = respond
                 rig.grpc.take()
+                if kind == "rest":
+                    rig.http.respond = respond_http
+                    rig.http.take()
                 client = rig.client(f, svc, kind)
                 meth = getattr(client, client_method_name(m["name"]))
                 detail = {"rpc": path_, "client": kind, "k": k, "outcome": outcome, "lro": m.get("lro"), "resolution": [case_r, case_m]}
@@ -106,7 +169,7 @@ def exercise(ctx):
                     ctx.nontrivial(["lro", case_r, case_m, k, outcome, kind])
                 result = exc = md = fut = None
                 try:
-                    if kind == "sync":
+                    if kind in ("sync", "rest"):
                         fut = meth(request=to_python(ctx, m["input"], req))
                         if annotated:
                             try:
@@ -132,6 +195,12 @@ def exercise(ctx):
                 calls = rig.grpc.take()
                 polls = [c for c in calls if c["method"] == GETOP]
                 first = [c for c in calls if c["method"] == path_]
+                if kind == "rest":
+                    if calls:
+                        raise Fail("rest-used-grpc", f"{path_} (rest): {len(calls)} gRPC calls made by the REST client", detail)
+                    hcalls = rig.http.take()
+                    polls = [dict(c, op_name=opname) for c in hcalls if c.get("is_poll")]
+                    first = [c for c in hcalls if not c.get("is_poll")]
                 if len(first) != 1:
                     raise Fail("call-count", f"{path_} ({kind}): {len(first)} initial calls", detail)
                 if not annotated:
